@@ -15,6 +15,24 @@ def planted(tier_name):
     return [{"name": "planted:evaluator-tells-known-pairs-apart", "engine": "E2-z3-translation-validation", "verdict": "discharged" if all(out) else "harness_error", "evaluations": len(out), "distinct_nontrivial": len(out), "z3_checks": len(out), "detail": "" if all(out) else repr(out)}]
 
 
+def use_generator_call(fsel: int, extra: int, trailing_comma: bool, multiline: bool, empty: bool) -> bool:
+    """UseGenerator.leave_Call over a symbolic call shape (builtin, trailing comma, one-line / multi-line layout, an
+    optional second argument: positional start, key=, default=): the rewritten call evaluates to the same value or
+    raises the same exception type as the original, on a non-empty and on an empty iterable.
+    pre: 0 <= extra <= 3
+    post: _
+    """
+    from harness import ugen
+    from vlib.core import fin
+
+    call = ugen.build_call(fsel, extra, trailing_comma, multiline)
+    new, _ = ugen.rewrite(call)
+    before, after = ugen.observe(ugen.code(call), empty), ugen.observe(ugen.code(new), empty)
+    if before[0] == "syntax-error":
+        return fin(True)
+    return fin(before == after)
+
+
 SPEC = {
     "property": "C08",
     "level": "translation_validation",
@@ -23,6 +41,7 @@ SPEC = {
         "the complete real pipeline (cst.parse_module -> transformer.transform for every transformer of the codemod -> Module.code) of pixee:python/invert-boolean-check, combine-startswith-endswith, combine-isinstance-issubclass",
         "InvertedBooleanCheckTransformer.leave_UnaryOperation / report_new_comparison / _invert_comparisons",
         "CombineCallsBaseCodemod.leave_BooleanOperation / matches_* / combine_*",
+        "UseGenerator.leave_Call (E1 kernel over a symbolic call shape)",
     ],
     "bounds": {
         "quick": "grammar `r = <expr>`: not-prefixed comparison chains of 1-2 operators out of == != < > <= >= is 'is not' in 'not in' over int names, a bool name, True, None, 0 and a container, bare / parenthesised / inside and-or contexts; and/or trees of depth <= 1 and all 3-atom shapes (with and without parentheses) over 5 of 8 startswith/endswith atoms and 5 of 7 isinstance/issubclass atoms.  Value sorts: unbounded ints, bools, None; predicates uninterpreted; per element name a 'denotes a 2-tuple' flag",
@@ -35,8 +54,8 @@ SPEC = {
         "the evaluator is validated against exec() on sampled programs and every sat model is replayed by exec",
     ],
     "stubs": ["FileContext with a non-existent path (nothing is written)"],
-    "outside": ["walrus-if, with-wrapping, import codemods, lazy logging, f-strings, sql parameterization, use-generator / use-set-literal (statement-level or call-effect semantics beyond the evaluator)"],
+    "outside": ["walrus-if, with-wrapping (fix-file-resource-leak), import codemods (order-imports, unused-imports), lazy logging, f-strings, sql parameterization, use-set-literal: statement-level, scope or call-effect semantics beyond the evaluator (the seeded changes C08_a and C02_a live there and are NOT caught)"],
     "rule": "programs = grammar programs pushed through the real pipeline; distinct_nontrivial = programs the codemod changed; disagreements_checked = z3 equivalence queries on changed programs",
     "drivers": [translation_validation, planted],
-    "xh": [],
+    "xh": [__import__("vlib.main", fromlist=["Xh"]).Xh("use_generator_call", 200, 400)],
 }
